@@ -228,10 +228,16 @@ def rand_text(rng, ssc=None):
         if r < .85: return rng.choice(["junk", "x", "  y  ", ":", ";", "a:b;"]) + nl
         if r < .93: return "// a comment" + nl
         return rng.choice([" ", "\t", nl])
+    def pad(k):
+        # blanks around a key are part of the key (keys are upper-cased, never trimmed)
+        r = rng.random()
+        if r < .85: return k
+        return rng.choice([" " + k, k + " ", k + nl, "\t" + k, k + "  "])
+
     def key():
         k = rng.choice(SM_KEYS + ["NOTES2", "CHARTNAME"])
         r = rng.random()
-        return k if r < .6 else (k.lower() if r < .8 else k.capitalize())
+        return pad(k if r < .6 else (k.lower() if r < .8 else k.capitalize()))
     def val():
         n = rng.randrange(0, 4)
         s = "".join(rng.choice(["a", "b c", "1.0", "=", ",", nl, "\\:", "\;", "\\\\", "\\#", "/", "漢", " ", "\\//"]) for _ in range(n))
@@ -244,22 +250,22 @@ def rand_text(rng, ssc=None):
         body = "#" + k + "".join(":" + val() for _ in range(comps))
         end = ";" if rng.random() < .9 else nl      # missing semicolon recovered at the next line-start '#'
         return body + end + (nl if rng.random() < .8 else "")
-    if ssc and rng.random() < .8:
+    if rng.random() < (.8 if ssc else .15):
         parts.append(stray() if rng.random() < .2 else "")
-        parts.append(param(rng.choice(["VERSION", "version", "Version"]), 1))
+        parts.append(param(pad(rng.choice(["VERSION", "version", "Version"])), rng.choice([1, 1, 1, 0])))
     for _ in range(rng.randrange(0, 7)):
         parts.append(stray()); parts.append(param())
     for _ in range(rng.randrange(0, 3)):
         parts.append(stray())
         if ssc:
-            parts.append(param(rng.choice(["NOTEDATA", "notedata"]), rng.choice([1, 1, 0])))
+            parts.append(param(pad(rng.choice(["NOTEDATA", "notedata"])), rng.choice([1, 1, 0])))
             for _ in range(rng.randrange(0, 5)): parts.append(param(rng.choice(SSC_CHART_KEYS + ["stepstype", "Meter"])))
             if rng.random() < .9:
                 parts.append(param(rng.choice(["NOTES", "NOTES", "notes", "NOTES2"]), 1))
             if rng.random() < .3: parts.append(param())
         else:
             ncomp = rng.choice([6, 6, 6, 7, 8, 5, 2])
-            parts.append(param(rng.choice(["NOTES", "notes", "Notes"]), ncomp))
+            parts.append(param(pad(rng.choice(["NOTES", "notes", "Notes"])), ncomp))
             if rng.random() < .4: parts.append(param())
     parts.append(stray())
     t = "".join(parts)
